@@ -26,6 +26,8 @@ def run_job(kind, key):
     table, impls, virtuals = catc.cat_contracts()
     I = Interp(w, table)
     px.install(I)
+    if kind == 'sentence-loop':
+        return dict(job=key, records=px.sentence_loop_records(prop))
     if kind == 'lemmas':
         return dict(job=key, records=px.pyx_lemmas(I, prop) + px.constructor_records(I, prop))
     c = contract_for(name)
@@ -41,6 +43,8 @@ def records_for(prop):
     jobs = [('contract', (prop, n)) for n, props in FUNCTIONS.items() if prop in props]
     if prop in ('C02', 'C12'):
         jobs.append(('lemmas', (prop, 'nleaves-positive')))
+    if prop == 'C11':
+        jobs.append(('sentence-loop', (prop, 'run')))
     results = engine.run_jobs('props.pyx', jobs)
     records, errors = [], []
     for r in results:
@@ -55,7 +59,7 @@ FUNCTIONS_UNDER_CONTRACT = {
             'depccg/parsing.pyx::run.unary_callback', 'depccg/parsing.pyx::run.maybe_add_and_get (table invariant, ids only grow)'],
     'C12': ['depccg/parsing.pyx::retrieve_tree (labels and head flag from cache[(children ids)][rule_id])', 'depccg/parsing.pyx::scaffold (k-th result copied field by field)',
             'depccg/parsing.pyx::run.binary_callback / run.unary_callback (rule_id = position of the result in the grammar answer)'],
-    'C11': ['depccg/parsing.pyx::run.maybe_add_and_get (ids handed out earlier keep their meaning)'],
+    'C11': ['depccg/parsing.pyx::run.maybe_add_and_get (ids handed out earlier keep their meaning)', 'depccg/parsing.pyx::run (sentence loop: exactly one result per sentence on every path; ast)'],
 }
 
 ASSUMPTIONS = [
